@@ -37,3 +37,6 @@ open Lungo.C07
 #print axioms Lungo.C07.insert_accepted
 #print axioms Lungo.C07.reject_complete
 #print axioms Lungo.C07.update_swap_ok
+#print axioms unique_runCall
+#print axioms unique_sstep
+#print axioms unique_sinit
